@@ -46,16 +46,16 @@ def observe(fn, paths):
     """(ff, collected) of a validation function taking errs-or-None."""
     from metapype.eml.exceptions import MetapypeRuleError
     try:
-        fn(None)
+        VT.with_limit(lambda: fn(None))
         ff = ["OK", ""]
     except Exception as ex:  # noqa
         ff = [("" if isinstance(ex, MetapypeRuleError) else "CRASH:") + type(ex).__name__, str(ex)]
     errs = []
     try:
-        fn(errs)
+        VT.with_limit(lambda: fn(errs))
         col = [canon_entry(e, paths) for e in errs]
     except Exception as ex:  # noqa
-        col = [canon_entry(e, paths) for e in errs] + [["RAISED:" + type(ex).__name__, str(ex)]]
+        col = [canon_entry(e, paths) for e in errs[:200]] + [["RAISED:" + type(ex).__name__, str(ex)]]
     return ff, col
 
 
